@@ -3,8 +3,12 @@ CONSTANTS
   NT = @NT@
   MaxSends = 0
   FLimit = 0
+  GLimit = 0
+  HLimit = 0
   ILimit = 0
   Causes = {}
+  Kinds = {}
+  MaxRuns = 0
 INVARIANTS TraceInv
 CONSTRAINT Progress
 POSTCONDITION Accepted
